@@ -44,15 +44,130 @@ import (
 //go:embed census.txt
 var censusText string
 
-var census = func() map[string]bool {
+var census, censusSig = func() (map[string]bool, map[string]string) {
 	m := map[string]bool{}
+	sg := map[string]string{}
 	for _, l := range strings.Split(censusText, "\n") {
 		if l = strings.TrimSpace(l); l != "" {
-			m[l] = true
+			name, sig, _ := strings.Cut(l, "\t")
+			m[name] = true
+			sg[name] = sig
 		}
 	}
-	return m
+	return m, sg
 }()
+
+// funcSigString: the signature without the receiver, package-qualified by path.
+func funcSigString(fn *types.Func) string {
+	sig := fn.Type().(*types.Signature)
+	q := func(p *types.Package) string { return p.Path() }
+	var b strings.Builder
+	b.WriteString("func(")
+	for i := 0; i < sig.Params().Len(); i++ {
+		if i > 0 {
+			b.WriteString(", ")
+		}
+		if sig.Variadic() && i == sig.Params().Len()-1 {
+			b.WriteString("...")
+		}
+		b.WriteString(types.TypeString(sig.Params().At(i).Type(), q))
+	}
+	b.WriteString(") (")
+	for i := 0; i < sig.Results().Len(); i++ {
+		if i > 0 {
+			b.WriteString(", ")
+		}
+		b.WriteString(types.TypeString(sig.Results().At(i).Type(), q))
+	}
+	b.WriteString(")")
+	return b.String()
+}
+
+// renameBack: an unexported function of the census that is gone, while exactly
+// one new function with the same package, receiver type and signature has
+// appeared, has been renamed. The overlay gives it its census name back (at the
+// declaration and every use), so that the rules anchored on that name find it.
+func renameBack(pkgs []*packages.Package, fset *token.FileSet, read func(string) []byte) (map[string][]srcEdit, []string) {
+	present := map[string]*types.Func{}
+	declOf := map[*types.Func]*ast.FuncDecl{}
+	pkgOf := map[*types.Func]*packages.Package{}
+	loaded := map[string]bool{}
+	for _, pk := range pkgs {
+		loaded[shortPkg(pk.PkgPath)] = true
+		for _, file := range pk.Syntax {
+			for _, d := range file.Decls {
+				if fd, ok := d.(*ast.FuncDecl); ok {
+					if fn, ok := pk.TypesInfo.Defs[fd.Name].(*types.Func); ok {
+						present[funcFullName(fn)] = fn
+						declOf[fn] = fd
+						pkgOf[fn] = pk
+					}
+				}
+			}
+		}
+	}
+	prefix := func(full string) string {
+		if i := strings.LastIndex(full, "."); i >= 0 {
+			return full[:i]
+		}
+		return ""
+	}
+	var missing []string
+	for name := range census {
+		if present[name] == nil {
+			missing = append(missing, name)
+		}
+	}
+	sort.Strings(missing)
+	edits := map[string][]srcEdit{}
+	var notes []string
+	used := map[*types.Func]bool{}
+	for _, m := range missing {
+		last := m[strings.LastIndex(m, ".")+1:]
+		if ast.IsExported(last) || censusSig[m] == "" {
+			continue
+		}
+		var cands []*types.Func
+		for full, fn := range present {
+			if census[full] || prefix(full) != prefix(m) || fn.Exported() || used[fn] {
+				continue
+			}
+			if funcSigString(fn) == censusSig[m] {
+				cands = append(cands, fn)
+			}
+		}
+		// the other missing names must not compete for the same candidate
+		rivals := 0
+		for _, o := range missing {
+			if o != m && prefix(o) == prefix(m) && censusSig[o] == censusSig[m] {
+				rivals++
+			}
+		}
+		if len(cands) != 1 || rivals > 0 {
+			continue
+		}
+		fn := cands[0]
+		// the census name must be free in the package
+		if pkgOf[fn].Types.Scope().Lookup(last) != nil && fn.Type().(*types.Signature).Recv() == nil {
+			continue
+		}
+		used[fn] = true
+		add := func(id *ast.Ident) {
+			pos := fset.PositionFor(id.Pos(), false)
+			edits[pos.Filename] = append(edits[pos.Filename], srcEdit{pos.Offset, pos.Offset + len(id.Name), last})
+		}
+		add(declOf[fn].Name)
+		for _, pk := range pkgs {
+			for id, obj := range pk.TypesInfo.Uses {
+				if obj == fn {
+					add(id)
+				}
+			}
+		}
+		notes = append(notes, fmt.Sprintf("function %s (not in the census) has the package, receiver and signature of the missing %s and no rival: analysed under that name", funcFullName(fn), m))
+	}
+	return edits, notes
+}
 
 func funcFullName(fn *types.Func) string {
 	sig := fn.Type().(*types.Signature)
@@ -119,6 +234,8 @@ type inlineSite struct {
 	call       *ast.CallExpr
 	path       []ast.Node // enclosing interval path, innermost first
 	uses       int        // references to the helper in the module (all of them calls)
+	// some call site is in the helper's own file (its imports are then still needed)
+	sameFileCaller bool
 }
 
 // a helper with a few call sites is substituted into each of them (one per
@@ -319,8 +436,17 @@ func movableBranch(b *ast.BlockStmt) bool {
 	}
 	ok := true
 	ast.Inspect(b, func(n ast.Node) bool {
-		switch n.(type) {
-		case *ast.BranchStmt, *ast.LabeledStmt, *ast.FuncLit, *ast.DeferStmt:
+		switch x := n.(type) {
+		case *ast.BranchStmt:
+			// an unlabelled continue still continues the caller's loop: the returns it
+			// is copied to are never inside a loop of the helper; a break could be
+			// captured by a switch of the helper
+			if x.Tok != token.CONTINUE || x.Label != nil {
+				ok = false
+			}
+		case *ast.ForStmt, *ast.RangeStmt:
+			// a continue inside a loop of the branch itself is fine either way
+		case *ast.LabeledStmt, *ast.FuncLit, *ast.DeferStmt:
 			ok = false
 		}
 		return ok
@@ -634,8 +760,41 @@ func (r *inliner) procList(list []ast.Stmt, tail bool, encl *ast.IfStmt) {
 			r.edits = append(r.edits, srcEdit{end, end, "\n}"})
 			return
 		}
+		if sw, ok := s.(*ast.SwitchStmt); ok && !last && r.mode != 2 && r.containsPlainReturn(sw) {
+			// switch { case a: ...; return X }; rest   ==>   switch { case a: ...; L = X; default: rest }
+			if r.switchToDefault(sw.Body, list[i+1:], tail) {
+				r.procStmt(sw, tail, nil)
+				return
+			}
+			r.failf("return inside a switch that has statements after it")
+			return
+		}
 		r.procStmt(s, tail && last, encl)
 	}
+}
+
+// switchToDefault moves the statements after a switch without default, all of
+// whose clauses end in a return, into a new default clause.
+func (r *inliner) switchToDefault(body *ast.BlockStmt, rest []ast.Stmt, tail bool) bool {
+	for _, cl := range body.List {
+		cc, ok := cl.(*ast.CaseClause)
+		if !ok || cc.List == nil || !terminates(cc.Body) {
+			return false
+		}
+	}
+	if hasBreak(body) || len(rest) == 0 {
+		return false
+	}
+	r.procList(rest, tail, nil)
+	if r.fail != "" {
+		return false
+	}
+	lo, hi := r.off(rest[0].Pos()), r.off(rest[len(rest)-1].End())
+	txt := renderRange(r.src, lo, hi, r.edits)
+	r.edits = append(r.edits, srcEdit{lo, hi, ""})
+	at := r.off(body.Rbrace)
+	r.edits = append(r.edits, srcEdit{at, at, "default:\n" + txt + "\n"})
+	return true
 }
 
 func (r *inliner) procStmt(s ast.Stmt, tail bool, encl *ast.IfStmt) {
@@ -895,9 +1054,11 @@ func inlineOne(fset *token.FileSet, site *inlineSite, read func(string) []byte) 
 	}
 
 	// --- parameters
+	recvPathSubst, recvPathRoot, exactRecv := "", "", false
 	type param struct {
-		obj *types.Var
-		arg ast.Expr
+		obj  *types.Var
+		arg  ast.Expr
+		text string // receiver reached through embedded fields: the explicit path
 	}
 	var params []param
 	if recv := sig.Recv(); recv != nil {
@@ -905,18 +1066,60 @@ func inlineOne(fset *token.FileSet, site *inlineSite, read func(string) []byte) 
 		if !ok {
 			return nil, "method not called through a selector"
 		}
-		// the receiver expression must have exactly the receiver type (no implicit & or *)
-		if tv, ok := info.Types[sel.X]; !ok || !types.Identical(tv.Type, recv.Type()) {
-			return nil, "implicit receiver conversion"
+		// make the implicit parts of the method call explicit: the path through
+		// embedded fields, and the & or * the call adds
+		selInfo := info.Selections[sel]
+		tv, okT := info.Types[sel.X]
+		if selInfo == nil || !okT {
+			return nil, "receiver not resolved"
 		}
-		if s := info.Selections[sel]; s == nil || len(s.Index()) != 1 {
-			return nil, "promoted method"
+		rtext := ""
+		cur := tv.Type
+		if len(selInfo.Index()) > 1 {
+			rtext = string(r.csrc[r.coff(sel.X.Pos()):r.coff(sel.X.End())])
+			for _, ix := range selInfo.Index()[:len(selInfo.Index())-1] {
+				st, ok := derefT(cur).Underlying().(*types.Struct)
+				if !ok || ix >= st.NumFields() {
+					return nil, "promoted method through a non-struct"
+				}
+				rtext += "." + st.Field(ix).Name()
+				cur = st.Field(ix).Type()
+			}
+		}
+		exactPath := false
+		switch {
+		case types.Identical(cur, recv.Type()):
+			exactPath = rtext != ""
+		case types.Identical(types.NewPointer(cur), recv.Type()):
+			if rtext == "" {
+				rtext = string(r.csrc[r.coff(sel.X.Pos()):r.coff(sel.X.End())])
+			}
+			rtext = "(&" + rtext + ")"
+		case types.Identical(cur, types.NewPointer(recv.Type())):
+			if rtext == "" {
+				rtext = string(r.csrc[r.coff(sel.X.Pos()):r.coff(sel.X.End())])
+			}
+			rtext = "(*" + rtext + ")"
+		default:
+			return nil, "implicit receiver conversion"
 		}
 		var ro *types.Var
 		if site.decl.Recv != nil && len(site.decl.Recv.List) == 1 && len(site.decl.Recv.List[0].Names) == 1 {
 			ro, _ = info.Defs[site.decl.Recv.List[0].Names[0]].(*types.Var)
 		}
-		params = append(params, param{ro, sel.X})
+		params = append(params, param{ro, sel.X, rtext})
+		if exactPath {
+			if _, isPtr := recv.Type().(*types.Pointer); isPtr {
+				if id, ok := ast.Unparen(sel.X).(*ast.Ident); ok {
+					if v, ok := info.Uses[id].(*types.Var); ok && v.Parent() != nil && v.Parent() != pk.Types.Scope() {
+						// x.Embedded of pointer type, x a local: the same pointer wherever it is read
+						recvPathSubst = rtext
+						recvPathRoot = id.Name
+					}
+				}
+			}
+			exactRecv = true
+		}
 	}
 	if len(call.Args) != sig.Params().Len() {
 		return nil, "argument spread"
@@ -924,13 +1127,13 @@ func inlineOne(fset *token.FileSet, site *inlineSite, read func(string) []byte) 
 	pi := 0
 	for _, f := range site.decl.Type.Params.List {
 		if len(f.Names) == 0 {
-			params = append(params, param{nil, call.Args[pi]})
+			params = append(params, param{nil, call.Args[pi], ""})
 			pi++
 			continue
 		}
 		for _, nm := range f.Names {
 			o, _ := info.Defs[nm].(*types.Var)
-			params = append(params, param{o, call.Args[pi]})
+			params = append(params, param{o, call.Args[pi], ""})
 			pi++
 		}
 	}
@@ -999,7 +1202,31 @@ func inlineOne(fset *token.FileSet, site *inlineSite, read func(string) []byte) 
 			}
 			continue
 		}
-		if id, ok := ast.Unparen(p.arg).(*ast.Ident); ok && !written[p.obj] && !hasLit {
+		if p.text != "" && recvPathSubst != "" && p.text == recvPathSubst && !written[p.obj] && !hasLit {
+			subst[p.obj] = recvPathSubst
+			taken[recvPathRoot] = true
+			continue
+		}
+		if sel, ok := ast.Unparen(p.arg).(*ast.SelectorExpr); ok && p.text == "" && !written[p.obj] && !hasLit {
+			// a package function (pkg.F) or a method value of a caller local (x.M)
+			// passed as a function: calls through the parameter become static calls
+			if xid, ok := sel.X.(*ast.Ident); ok {
+				okSub := false
+				if _, isPkg := info.Uses[xid].(*types.PkgName); isPkg {
+					_, okSub = info.Uses[sel.Sel].(*types.Func)
+				} else if xv, isVar := info.Uses[xid].(*types.Var); isVar && xv.Parent() != nil && xv.Parent() != pk.Types.Scope() && !xv.IsField() {
+					if si := info.Selections[sel]; si != nil && si.Kind() == types.MethodVal {
+						okSub = true
+					}
+				}
+				if tv, okT := info.Types[p.arg]; okSub && okT && types.Identical(tv.Type, p.obj.Type()) {
+					subst[p.obj] = string(r.csrc[r.coff(p.arg.Pos()):r.coff(p.arg.End())])
+					taken[xid.Name] = true
+					continue
+				}
+			}
+		}
+		if id, ok := ast.Unparen(p.arg).(*ast.Ident); ok && p.text == "" && !written[p.obj] && !hasLit {
 			switch ao := info.Uses[id].(type) {
 			case *types.Var:
 				if ao.Parent() != nil && ao.Parent() != pk.Types.Scope() && !ao.IsField() && types.Identical(ao.Type(), p.obj.Type()) {
@@ -1260,6 +1487,10 @@ func inlineOne(fset *token.FileSet, site *inlineSite, read func(string) []byte) 
 		b.WriteString(d + "\n")
 	}
 	b.WriteString("{\n")
+	if r.errIdx >= 0 && !r.errMayBeSet && r.lhs[r.errIdx] != "_" {
+		// the caller's test of the error is dropped below: keep the variable "used"
+		b.WriteString("_ = " + r.lhs[r.errIdx] + "\n")
+	}
 	if r.cont != nil {
 		// the test that read the targets is gone: keep them "used"
 		for _, l := range lhsExprs {
@@ -1277,7 +1508,19 @@ func inlineOne(fset *token.FileSet, site *inlineSite, read func(string) []byte) 
 			}
 			ls = append(ls, n)
 			at := string(r.csrc[r.coff(p.arg.Pos()):r.coff(p.arg.End())])
-			if p.obj != nil {
+			if p.text != "" {
+				at = p.text
+			}
+			sameType := false
+			if tv, ok := info.Types[p.arg]; ok && p.obj != nil && p.text == "" && tv.Type != nil && types.Identical(tv.Type, p.obj.Type()) && !tv.IsNil() {
+				if b, isB := tv.Type.(*types.Basic); !isB || b.Info()&types.IsUntyped == 0 {
+					sameType = true
+				}
+			}
+			if p.text != "" && exactRecv && p.text[0] != '(' {
+				sameType = true
+			}
+			if p.obj != nil && !sameType {
 				// keep the parameter's type (untyped constants, nil, interface conversion)
 				if te := paramTypeExpr(site.decl, p.obj, info); te != nil {
 					at = "(" + string(r.src[r.off(te.Pos()):r.off(te.End())]) + ")(" + at + ")"
@@ -1372,16 +1615,29 @@ func inlineOne(fset *token.FileSet, site *inlineSite, read func(string) []byte) 
 		}
 		edits[callerName] = append(edits[callerName], srcEdit{at, at, txt})
 	}
-	if site.uses > 1 {
-		return edits, ""
-	}
+	return edits, ""
+}
+
+// deleteHelper: the edits that remove the helper's declaration (keeping the
+// line count) and blank the imports only it used.
+func deleteHelper(fset *token.FileSet, site *inlineSite, read func(string) []byte) map[string][]srcEdit {
+	info := site.pkg.TypesInfo
+	calleeName := fset.PositionFor(site.decl.Pos(), false).Filename
+	src := read(calleeName)
+	off := func(p token.Pos) int { return fset.PositionFor(p, false).Offset }
+	r := &struct {
+		src []byte
+		off func(token.Pos) int
+	}{src, off}
+	edits := map[string][]srcEdit{}
+	sameFileCallers := site.sameFileCaller
 	// delete the helper (keeping the line count)
 	dlo := r.off(site.decl.Pos())
 	if site.decl.Doc != nil {
 		dlo = r.off(site.decl.Doc.Pos())
 	}
 	dhi := r.off(site.decl.End())
-	if site.calleeFile != nil && site.uses == 1 {
+	if site.calleeFile != nil && true {
 		usedOutside := map[types.Object]bool{}
 		ast.Inspect(site.calleeFile, func(n ast.Node) bool {
 			if n == ast.Node(site.decl) {
@@ -1403,7 +1659,7 @@ func inlineOne(fset *token.FileSet, site *inlineSite, read func(string) []byte) 
 			}
 			return true
 		})
-		sameFile := calleeName == callerName
+		sameFile := sameFileCallers
 		for _, imp := range site.calleeFile.Imports {
 			var pn types.Object
 			if imp.Name != nil {
@@ -1419,7 +1675,7 @@ func inlineOne(fset *token.FileSet, site *inlineSite, read func(string) []byte) 
 	}
 	nl := bytes.Count(r.src[dlo:dhi], []byte("\n"))
 	edits[calleeName] = append(edits[calleeName], srcEdit{dlo, dhi, strings.Repeat("\n", nl)})
-	return edits, ""
+	return edits
 }
 
 func resultTypeExpr(fd *ast.FuncDecl, i int) ast.Expr {
@@ -1467,6 +1723,32 @@ func deextract(repo string, first []*packages.Package, fset *token.FileSet, load
 	var notes []string
 	pkgs := first
 	refused := map[string]bool{}
+	{
+		var mod []*packages.Package
+		for _, pk := range pkgs {
+			if strings.HasPrefix(pk.PkgPath, modPath) {
+				mod = append(mod, pk)
+			}
+		}
+		readDisk := func(name string) []byte {
+			b, _ := os.ReadFile(name)
+			return b
+		}
+		if ed, ns := renameBack(mod, fset, readDisk); len(ed) > 0 {
+			for f, es := range ed {
+				src := readDisk(f)
+				overlay[f] = []byte(renderRange(src, 0, len(src), es))
+			}
+			np, nf, err := loadLight(overlay)
+			if err != nil {
+				overlay = map[string][]byte{}
+				notes = append(notes, "rename recovery abandoned, the overlay does not type-check: "+err.Error())
+			} else {
+				pkgs, fset = np, nf
+				notes = append(notes, ns...)
+			}
+		}
+	}
 	for round := 0; round < 10; round++ {
 		var mod []*packages.Package
 		for _, pk := range pkgs {
@@ -1490,6 +1772,7 @@ func deextract(repo string, first []*packages.Package, fset *token.FileSet, load
 		}
 		touched := []*ast.FuncDecl{}
 		touchedCallee := []*ast.FuncDecl{}
+		done := map[*types.Func][]*inlineSite{}
 		fileEdits := map[string][]srcEdit{}
 		progress := false
 		for _, s := range sites {
@@ -1535,8 +1818,23 @@ func deextract(repo string, first []*packages.Package, fset *token.FileSet, load
 			} else {
 				touchedCallee = append(touchedCallee, s.decl)
 			}
-			notes = append(notes, fmt.Sprintf("helper %s substituted into its call site in %s (%d left)", name, funcFullName(pkgFunc(s)), s.uses-1))
+			done[s.callee] = append(done[s.callee], s)
+			notes = append(notes, fmt.Sprintf("helper %s substituted into its call site in %s", name, funcFullName(pkgFunc(s))))
 			progress = true
+		}
+		// a helper all of whose call sites are gone is deleted
+		for _, ss := range done {
+			if len(ss) != ss[0].uses {
+				continue
+			}
+			for _, x := range ss {
+				if fset.PositionFor(x.callerDecl.Pos(), false).Filename == fset.PositionFor(x.decl.Pos(), false).Filename {
+					ss[0].sameFileCaller = true
+				}
+			}
+			for f, es := range deleteHelper(fset, ss[0], read) {
+				fileEdits[f] = append(fileEdits[f], es...)
+			}
 		}
 		if !progress {
 			break
